@@ -194,13 +194,14 @@ Proof.
     destruct (tprefix_cons_inv _ _ _ H3 eq_refl) as [-> | [l4 [-> H4]]]; [exact S2|].
     assert (S3 : sealed_state p (run [OFsyncDir; OUnlink Meta] s2)).
     { destruct S2 as [X1 [X2 [X3 [X4 X5]]]]. unfold run, sealed_state, upd. simpl.
-      split; auto. split; auto. split; auto. }
+      split; [exact X1|]. split; [exact X2|]. split; [exact X3|]. split; [left; reflexivity|]. exact X5. }
     destruct (skip_sort p) eqn:Sk.
     + apply tprefix_nil_inv in H4. subst. exact S3.
     + destruct (tprefix_cons_inv _ _ _ H4 eq_refl) as [-> | [l5 [-> H5]]]; [exact S3|].
       apply tprefix_nil_inv in H5. subst.
       destruct S2 as [X1 [X2 [X3 [X4 X5]]]]. unfold run, sealed_state, upd. simpl.
-      rewrite Sk in *. split; auto. split; auto. split; auto.
+      rewrite Sk in *. split; [exact X1|]. split; [exact X2|]. split; [left; reflexivity|].
+      split; [left; reflexivity|]. exact X5.
 Qed.
 
 (* main lemma: any torn prefix of a seal run (with or without a write fault), any power loss *)
